@@ -617,6 +617,27 @@ HIST = ["setters", "optim", "load_state_dict", "set_train_data"]
 HIST_COPY = ["deepcopy>setters", "deepcopy>optim", "deepcopy>load_state_dict"]
 
 
+def _grad_pass(idx, kinds):
+    """is the validation prediction that fills the eval caches made with autograd enabled (else under torch.no_grad())"""
+    return (idx // len(kinds)) % 2 == 1
+
+
+def _pass_ctx(torch, grad):
+    from contextlib import nullcontext
+    return nullcontext() if grad else torch.no_grad()
+
+
+def _train_objective(mdl, lik, torch):
+    """TRAINING-mode observations of the model as it stands: kernel(X, X) and ExactMarginalLogLikelihood (default settings)"""
+    import gpytorch
+    X, y = mdl.train_inputs[0], mdl.train_targets
+    with torch.no_grad(), warnings.catch_warnings():
+        quiet()
+        kxx = mdl.covar_module(X, X).to_dense().clone()
+        obj = gpytorch.mlls.ExactMarginalLogLikelihood(lik, mdl)(mdl(X), y).item()
+    return {"kxx": kxx, "objective": obj}
+
+
 def _apply_history(kind, mdl, lik, set_params, p1, build, new_data, torch):
     """`mdl` holds the INITIAL parameters and has just predicted in eval mode (all eval caches are filled).
     Move it to its final state through one of the documented invalidation points:
@@ -625,9 +646,13 @@ def _apply_history(kind, mdl, lik, set_params, p1, build, new_data, torch):
       load_state_dict  load the state of a fresh model built with the final parameters (stays in eval mode)
       set_train_data   replace the training data (stays in eval mode; parameters unchanged)
       deepcopy>K       copy.deepcopy(model) first, then K on the COPY (its own `.likelihood`)
-    Returns (model, likelihood) to evaluate — the copy for the `deepcopy>` kinds — and the untouched original (or None)."""
+    `setters` / `optim` are an eval -> train -> eval round trip: BEFORE returning to eval mode the kernel matrix and the training
+    objective are observed in training mode (they must be those of the parameters just assigned, not of evaluation time).
+    Returns (model, likelihood) to evaluate — the copy for the `deepcopy>` kinds —, the untouched original (or None) and the
+    training-mode observations (or None)."""
     import gpytorch
     orig = None
+    tobs = None
     if kind.startswith("deepcopy>"):
         import copy
         orig = (mdl, lik)
@@ -637,6 +662,7 @@ def _apply_history(kind, mdl, lik, set_params, p1, build, new_data, torch):
     if kind == "setters":
         mdl.train(); lik.train()
         set_params(mdl, lik, p1)
+        tobs = _train_objective(mdl, lik, torch)
         mdl.eval(); lik.eval()
     elif kind == "optim":
         mdl.train(); lik.train()
@@ -650,6 +676,7 @@ def _apply_history(kind, mdl, lik, set_params, p1, build, new_data, torch):
                 loss.backward()
                 opt.step()
         opt.zero_grad()
+        tobs = _train_objective(mdl, lik, torch)
         mdl.eval(); lik.eval()
     elif kind == "load_state_dict":
         m2, _ = build(p1)
@@ -658,7 +685,24 @@ def _apply_history(kind, mdl, lik, set_params, p1, build, new_data, torch):
         mdl.set_train_data(new_data[0], new_data[1], strict=False)
     else:
         raise ValueError(kind)
-    return mdl, lik, orig
+    return mdl, lik, orig, tobs
+
+
+def _logdet(det):
+    return math.log(det.numerator) - math.log(det.denominator)
+
+
+def _train_check(rep, pre, name, desc, tobs, K_rows, quad, det, n, added=0.0):
+    """training mode after a parameter change that followed an eval-mode prediction: kernel(X, X) and the objective must be
+    those of the CURRENT parameters"""
+    if tobs is None:
+        return
+    rep.close(pre + name + "/train-mode/to_dense", f"{desc}: TRAINING-mode kernel(X,X) right after the parameter change (eval caches had been "
+              "filled before) vs the dense formula of the current parameters", tobs["kxx"], K_rows, rtol=1e-9, atol=1e-10)
+    bound = (-0.5 * float(quad) - 0.5 * _logdet(det) - 0.5 * n * math.log(2 * math.pi) + float(added)) / n
+    if abs(tobs["objective"] - bound) > 1e-8 * (1 + abs(bound)):
+        rep.fail(pre + name + "/train-mode/objective", f"{desc}: TRAINING-mode ExactMarginalLogLikelihood right after the parameter change = "
+                 f"{tobs['objective']!r}, dense value for the current parameters = {bound!r}")
 
 
 def _orig_check(rep, pre, desc, orig_obs):
@@ -725,7 +769,10 @@ def case_sgpr(ctx, idx, tier, hist=None):
 
     obs = {}
     lines = []
+    kinds_ = HIST_COPY if hist in HIST_COPY else HIST
+    gpass = hist is not None and _grad_pass(idx, kinds_)
     for corr in (True, False):
+        tobs = None
         with warnings.catch_warnings(), gpytorch.settings.sgpr_diagonal_correction(corr):
             quiet()
             if hist is None:
@@ -733,11 +780,11 @@ def case_sgpr(ctx, idx, tier, hist=None):
             else:
                 mdl, lik = build(p0)
                 mdl.eval(); lik.eval()
-                with torch.no_grad(), _cell_ctx(cell):
+                with _pass_ctx(torch, gpass), _cell_ctx(cell):
                     pr0 = mdl(Xs)                      # fills prediction_strategy + the kernel's eval caches
-                    before = (pr0.mean.clone(), pr0.covariance_matrix.clone())
+                    before = (pr0.mean.detach().clone(), pr0.covariance_matrix.detach().clone())
                     mdl.covar_module(X0, X0).to_dense()
-                mdl, lik, orig = _apply_history(hist, mdl, lik, set_params, p1, build, (X2, y2), torch)
+                mdl, lik, orig, tobs = _apply_history(hist, mdl, lik, set_params, p1, build, (X2, y2), torch)
             X, y = mdl.train_inputs[0], mdl.train_targets
             nn_ = X.shape[0]
             with torch.no_grad():
@@ -776,11 +823,12 @@ def case_sgpr(ctx, idx, tier, hist=None):
                         pr1 = orig[0](Xs)
                     orig_obs = (before, (pr1.mean.clone(), pr1.covariance_matrix.clone()))
         obs[corr] = dict(objective=objective, pm=pm, pc=pc, cache=cache, kern_xx=kern_xx, kern_sx=kern_sx, cm=cm_v, n=nn_,
-                         root_dev=root_dev, shared=shared, orig_obs=orig_obs)
+                         root_dev=root_dev, shared=shared, orig_obs=orig_obs, tobs=tobs)
         r = y - cm_v
         lines.append(f"sgpr {S(1 if corr else 0)} {M(Kd)} {M(Kxz)} {M(Kzz)} {M(Ksz)} {M(Kss)} {M(r)} "
                      f"{M(torch.full((nn_,), noise_v))} {M(Rroot)} {M(Linv)}")
-    desc = (f"{'hist[' + hist + '] ' if hist else ''}sgpr d={d} n={n} m={m} n*={ns} cell={cell} noise={p1['noise']:.3f}")
+    desc = (f"{'hist[' + hist + '] ' if hist else ''}sgpr d={d} n={n} m={m} n*={ns} cell={cell} noise={p1['noise']:.3f}"
+            + (" validation-pass-with-grad" if gpass else ""))
     pre = f"history:{hist}/" if hist else ""
 
     def check(rep, R):
@@ -855,6 +903,7 @@ def case_sgpr(ctx, idx, tier, hist=None):
                 if a and b:
                     ctx.count("sgpr_corr_off_matches_titsias")
             # (e) objective = Titsias collapsed bound (training mode ignores the switch)
+            _train_check(rep, pre, "InducingPointKernel", tag, o["tobs"], Q, quad, det, n, added)
             logdet = math.log(det.numerator) - math.log(det.denominator)
             bound = (-0.5 * float(quad) - 0.5 * logdet - 0.5 * n * math.log(2 * math.pi) + float(added)) / n
             if abs(o["objective"] - bound) > 1e-9 * (1 + abs(bound)):
@@ -912,6 +961,8 @@ def case_rff(ctx, idx, tier, hist=None):
         set_params(mdl, lik, p)
         return mdl, lik
 
+    tobs = None
+    gpass = hist is not None and _grad_pass(idx, HIST_COPY if hist in HIST_COPY else HIST)
     with warnings.catch_warnings():
         quiet()
         if hist is None:
@@ -919,10 +970,10 @@ def case_rff(ctx, idx, tier, hist=None):
         else:
             mdl, lik = build(p0)
             mdl.eval(); lik.eval()
-            with torch.no_grad(), _cell_ctx(cell):
+            with _pass_ctx(torch, gpass), _cell_ctx(cell):
                 pr0 = mdl(Xs)
-                before = (pr0.mean.clone(), pr0.covariance_matrix.clone())
-            mdl, lik, orig = _apply_history(hist, mdl, lik, set_params, p1, build, (X2, y2), torch)
+                before = (pr0.mean.detach().clone(), pr0.covariance_matrix.detach().clone())
+            mdl, lik, orig, tobs = _apply_history(hist, mdl, lik, set_params, p1, build, (X2, y2), torch)
     X, y = mdl.train_inputs[0], mdl.train_targets
     n = X.shape[0]
     mdl.eval(); lik.eval()
@@ -951,7 +1002,7 @@ def case_rff(ctx, idx, tier, hist=None):
 
     def check(rep, R):
         rt, at = CELL_TOL[cell]
-        K, Ksx_w, Kss_w, mu, cov, inner, covR, cond, gInner, gCov = parse_reply(R[0])
+        K, Ksx_w, Kss_w, mu, cov, inner, covR, cond, gInner, gCov, quad, det = parse_reply(R[0])
         tie(ctx, "rffInnerTerm", gInner, inner, desc)
         if strat != "RFFPredictionStrategy":
             ctx.broke("correspondence", "rff-strategy", f"{desc}: strategy is {strat}")
@@ -977,6 +1028,7 @@ def case_rff(ctx, idx, tier, hist=None):
         rep.close(pre + "RFFPredictionStrategy/covar-generated", f"{desc}: covariance vs the regenerated expression on the code's own "
                   "covar_cache", pc, gCov, 1e-9, 1e-10)
         _orig_check(rep, pre, desc, orig_obs)
+        _train_check(rep, pre, "RFFKernel", desc, tobs, K, quad, det, n)
     fam = ("copy_rff" if hist in HIST_COPY else "hist_rff") if hist else "rff"
     return Case(fam, idx, desc, lines, check, sample={"family": fam, "desc": desc})
 
@@ -1047,6 +1099,8 @@ def case_kiss(ctx, idx, tier, hist=None, additive=False):
         return mdl, lik
 
     orig = None
+    tobs = None
+    gpass = hist is not None and _grad_pass(idx, HIST_COPY if hist in HIST_COPY else HIST)
     with warnings.catch_warnings(), gpytorch.settings.use_toeplitz(tz):
         quiet()
         if hist is None:
@@ -1054,11 +1108,11 @@ def case_kiss(ctx, idx, tier, hist=None, additive=False):
         else:
             mdl, lik = build(p0)
             mdl.eval(); lik.eval()
-            with torch.no_grad(), _cell_ctx(cell):
+            with _pass_ctx(torch, gpass), _cell_ctx(cell):
                 pr0 = mdl(Xs)                          # fills prediction_strategy and GridKernel._cached_kernel_mat
-                before = (pr0.mean.clone(), pr0.covariance_matrix.clone())
+                before = (pr0.mean.detach().clone(), pr0.covariance_matrix.detach().clone())
                 mdl.covar_module(X0, X0).to_dense()
-            mdl, lik, orig = _apply_history(hist, mdl, lik, set_params, p1, build, (X2, y2), torch)
+            mdl, lik, orig, tobs = _apply_history(hist, mdl, lik, set_params, p1, build, (X2, y2), torch)
     X, y = mdl.train_inputs[0], mdl.train_targets
     n = X.shape[0]
     mdl.eval(); lik.eval()
@@ -1129,6 +1183,7 @@ def case_kiss(ctx, idx, tier, hist=None, additive=False):
         # order in which the interpolation indices number them (first dimension slowest)
         U = torch.stack(torch.meshgrid(*grids, indexing="ij"), dim=-1).reshape(-1, gd)
         Kuu1 = mdl.gk.base_kernel(U, U).to_dense() * mdl.sk.outputscale
+        Kuu1 = torch.triu(Kuu1) + torch.triu(Kuu1, 1).T    # bit-exact symmetry (the float matrix can be 1 ulp off; LDL^T wants it)
         g1 = Kuu1.shape[0]
         if additive:
             Kuu = torch.block_diag(*[Kuu1] * d)
@@ -1236,7 +1291,8 @@ def case_kiss(ctx, idx, tier, hist=None, additive=False):
             ctx.broke("correspondence", "wiski-model", f"{desc}: exact WISKI cache mean differs from the exact dense conditional")
         # ---- the fantasy HISTORY: every request against the same base object, then the chained request, then the base again
         per = [H[1 + 6 * k: 7 + 6 * k] for k in range(len(hreqs))]
-        base_resp, gbase_resp, dPbase = H[1 + 6 * len(hreqs):]
+        base_resp, gbase_resp, dPbase, quad, det = H[1 + 6 * len(hreqs):]
+        _train_check(rep, pre, KP, desc, tobs, Kxx, quad, det, n)
         hp = pre + "InterpolatedPredictionStrategy/fantasy-history/"
         recs = fhist + [chain]
         for k, (rec, (dm_k, dc_k, resp_k, gresp_k, dP_k, fmean_k)) in enumerate(zip(recs, per)):
@@ -1539,6 +1595,80 @@ def case_copy_kiss(ctx, idx, tier):
     return case_kiss(ctx, idx, tier, hist=HIST_COPY[idx % len(HIST_COPY)], additive=idx % 2 == 1)
 
 
+def case_hist_kisskernel(ctx, idx, tier):
+    """KISS-GP kernel whose GRID changes in EVAL mode after a cached evaluation: (a) explicit `update_grid(new grid)`, (b)
+    data-driven re-gridding of a kernel built WITHOUT `grid_bounds` (called on data of one range, then on data of another range).
+    The kernel is then judged against W K_uu W^T for the grid it holds NOW (K_uu[a,b] = k(u_a,u_b) on the current grid points,
+    W = generated interpolation model on the current grid), twice (second call: whatever was cached by the first)."""
+    import gpytorch
+    torch = _t()
+    from gpytorch.utils.grid import create_grid
+    rng = ctx.rng(f"hist_kisskernel:{idx}")
+    torch.manual_seed(rng.torch_seed())
+    mech = ["update_grid", "regrid-by-data"][idx % 2]
+    d = 1 + (idx // 2) % 2
+    tz = (idx // 4) % 2 == 0
+    gs = [rng.randint(7, 9) for _ in range(d)]
+    ls = [0.4 + 0.3 * k + 0.3 * rng.random() for k in range(d)]
+    n, m = rng.randint(3, 5), rng.randint(2, 4)
+    base = gpytorch.kernels.RBFKernel(ard_num_dims=d)
+    base.lengthscale = torch.tensor([ls])
+    raised = None
+    with gpytorch.settings.use_toeplitz(tz), torch.no_grad(), warnings.catch_warnings():
+        quiet()
+        try:
+            if mech == "update_grid":
+                b0 = [(0.0, 1.0)] * d
+                b1 = [(-0.25 - 0.5 * rng.random(), 1.25 + rng.random()) for _ in range(d)]
+                gk = _kiss_kernel(base, gs, d, b0)
+                x1, x2 = torch.rand(n, d), torch.rand(m, d)
+                gk.eval()
+                gk(x1, x2).to_dense()                                   # caches K_uu of the first grid
+                gk.update_grid(create_grid(gs, b1, dtype=torch.float64))
+            else:
+                gk = gpytorch.kernels.GridInterpolationKernel(base, grid_size=gs, num_dims=d).double()
+                gk.eval()
+                xa = torch.rand(n, d)
+                gk(xa, xa).to_dense()                                   # grid fitted to [0,1]^d, K_uu cached
+                lo, hi = -1.0 - rng.random(), 2.0 + rng.random()
+                x1, x2 = lo + (hi - lo) * torch.rand(n, d), lo + (hi - lo) * torch.rand(m, d)
+                x1[0], x2[0] = lo, hi                                   # the new range is certainly outside the old grid
+            got = gk(x1, x2).to_dense()
+            got2 = gk(x1, x2).to_dense()
+            grids = [g.clone() for g in gk.grid]
+        except Exception as e:  # noqa: BLE001
+            raised = f"{type(e).__name__}: {str(e)[:200]}"
+            grids = [torch.linspace(0, 1, g_, dtype=torch.float64) for g_ in gs]
+    Ks = _dim_kernels(torch, grids, ls)
+    lines = ["gridrmD " + " ".join(M(K) for K in Ks), _interp_line(grids, x1), _interp_line(grids, x2)]
+    desc = f"hist[{mech}] kisskernel d={d} grid_size={gs} n={n} m={m} use_toeplitz={tz}"
+
+    def check(rep, R):
+        gKuu, Kuu = parse_reply(R[0])
+        tie(ctx, "gridForward[interpolation_mode]", gKuu, Kuu, desc)
+        if raised is not None:
+            rep.fail(f"history:{mech}/GridInterpolationKernel/raises", f"{desc}: {raised}")
+            return
+        g = len(Kuu)
+
+        def wrows(rp):
+            idx_rows, val_rows = parse_reply(rp)
+            W = []
+            for ir, vr in zip(idx_rows, val_rows):
+                row = [Fraction(0)] * g
+                for u, v in zip(ir, vr):
+                    row[int(u)] += v
+                W.append(row)
+            return W
+        W1, W2 = wrows(R[1]), wrows(R[2])
+        KW2 = [[sum(Kuu[a][b] * w for b, w in enumerate(r2) if w != 0) for r2 in W2] for a in range(g)]
+        want = [[sum(w * KW2[a][j] for a, w in enumerate(r1) if w != 0) for j in range(len(W2))] for r1 in W1]
+        for which, val in (("first", got), ("second", got2)):
+            rep.close(f"history:{mech}/GridInterpolationKernel/to_dense", f"{desc}: {which} eval-mode kernel(x1,x2) after the grid change vs "
+                      "W1 K_uu W2^T on the grid the kernel holds now", val, want, rtol=1e-10, atol=1e-11, extra={"call": which})
+    return Case("hist_kisskernel", idx, desc, lines, check, sample={"family": "hist_kisskernel", "desc": desc})
+
+
 def case_hist_sgpr(ctx, idx, tier):
     return case_sgpr(ctx, idx, tier, hist=HIST[idx % len(HIST)])
 
@@ -1572,9 +1702,11 @@ def case_hist_grid(ctx, idx, tier):
         gk = mk(grids0, ls0)
         gk.eval()
         gk(gk.full_grid, gk.full_grid).to_dense()          # fills _cached_kernel_mat
+        got_train = None
         if kind == "setters":
             gk.train()
             gk.base_kernel.lengthscale = torch.tensor([ls1])
+            got_train = gk(gk.full_grid, gk.full_grid).to_dense()     # training mode: must not read the eval cache
             gk.eval()
             grids_now, ls_now = grids0, ls1
         elif kind == "load_state_dict":
@@ -1592,6 +1724,9 @@ def case_hist_grid(ctx, idx, tier):
     def check(rep, R):
         rep.close(f"history:{kind}/GridKernel/to_dense", f"{desc}: GridKernel(full_grid).to_dense() after the history vs the dense formula of "
                   "the current parameters", got, parse_reply(R[0])[1], rtol=1e-12, atol=1e-13)
+        if got_train is not None:
+            rep.close(f"history:{kind}/GridKernel/train-mode/to_dense", f"{desc}: TRAINING-mode GridKernel(full_grid).to_dense() right after the "
+                      "parameter change vs the dense formula of the current parameters", got_train, parse_reply(R[0])[1], rtol=1e-12, atol=1e-13)
     return Case("hist_grid", idx, desc, lines, check, sample={"family": "hist_grid", "desc": desc})
 
 
@@ -1602,7 +1737,7 @@ FAMILIES = {   # family: (case builder, #cases quick, #cases thorough)
     "sgpr": (case_sgpr, 12, 240), "rff": (case_rff, 12, 200), "kiss": (case_kiss, 20, 200), "mtmodel": (case_mtmodel, 18, 252),
     # operation histories through the documented invalidation points (train(), load_state_dict, set_train_data, update_grid)
     "hist_sgpr": (case_hist_sgpr, 12, 96), "hist_rff": (case_hist_rff, 8, 72), "hist_kiss": (case_hist_kiss, 16, 64),
-    "hist_grid": (case_hist_grid, 6, 36),
+    "hist_grid": (case_hist_grid, 6, 36), "hist_kisskernel": (case_hist_kisskernel, 8, 48),   # grid changes in eval mode
     # additive-structure KISS-GP (`last_dim_is_batch=True`): kernel level and ExactGP models (incl. fantasy histories)
     "kisslb": (case_kisslb, 12, 48), "add_kiss": (case_add_kiss, 8, 30),
     # copy-then-modify-then-evaluate histories (deepcopy, then setters / optimiser steps / load_state_dict on the COPY)
